@@ -82,9 +82,11 @@ def invertibles(g, shape, n, cx=False):
     return P.Transformation(A)
 
 
-def transformations(g, shape, n, kind, cx=False):
+def transformations(g, shape, n, kind, cx=False, mixed=0.0, top=8.0):
     if cx or kind in ("simplex",):
         return invertibles(g, shape, n, cx)
+    if mixed and g.random() < mixed:
+        return mixed_isometries(g, tuple(shape), n, top)[0]      # G16 / G12: members of different kinds and magnitudes in one composite
     return isometries(g, shape, n)
 
 
@@ -425,6 +427,46 @@ def fresh_diff(kind, obj, n, tol=1e-6, mutate=False):
     return None
 
 
+def ref_segment_ideal(proj):
+    """the two null points on the line through the endpoints of each unit, by the cancellation-free homogeneous quadratic (independent of the library)"""
+    proj = np.asarray(np.real(proj), dtype=float)
+    n1 = proj.shape[-1]
+    J = np.diag([-1.0] + [1.0] * (n1 - 1))
+    out = np.empty_like(proj)
+    for idx in np.ndindex(*proj.shape[:-2]):
+        x1, x2 = proj[idx]
+        A, B, C = x1 @ J @ x1, x1 @ J @ x2, x2 @ J @ x2
+        d = math.sqrt(max(B * B - A * C, 0.0))
+        q = -(B + (d if B >= 0 else -d))
+        out[idx] = [q * x1 + A * x2, C * x1 + q * x2]
+    return out
+
+
+def mixed_isometries(g, shape, n=2, top=25.0):
+    """a composite Isometry whose members are of different kinds: elliptic, ordinary loxodromic, nearly parabolic (tiny translation), and
+    loxodromic with a large / huge multiplier (log of the eigenvalue up to `top`), each conjugated by its own isometry; returns (composite, list of
+    unit matrices)"""
+    cnt = int(np.prod(shape)) if len(shape) else 1
+    mats = []
+    order = g.permutation(np.array([0.1, 0.4, 0.6, 0.8, 0.9]))        # every kind occurs as soon as there are enough members
+    for r in range(cnt):
+        T = np.array(isometries(g, (), n).proj_data)
+        c = float(order[r % 5]) if cnt >= 2 else g.random()
+        if c < 0.25:
+            L = np.array(H.Isometry.standard_rotation(float(g.uniform(0.3, 2.8)), dimension=n).proj_data)
+        elif c < 0.55:
+            L = np.array(H.Isometry.standard_loxodromic(n, float(g.uniform(1.5, 4.0))).proj_data)
+        elif c < 0.7:
+            L = np.array(H.Isometry.standard_loxodromic(n, 1.0 + float(g.uniform(1e-4, 1e-2))).proj_data)
+        elif c < 0.85 or top <= 16.0:
+            L = np.array(H.Isometry.standard_loxodromic(n, float(np.exp(g.uniform(min(8.0, top / 2), min(16.0, top))))).proj_data)    # large translation length
+        else:
+            L = np.array(H.Isometry.standard_loxodromic(n, float(np.exp(g.uniform(16.0, top)))).proj_data)       # huge: eigenvalue up to e^25
+        mats.append(np.linalg.inv(T) @ L @ T)
+    M = np.array(mats).reshape(tuple(shape) + (n + 1, n + 1))
+    return H.Isometry(M), mats
+
+
 # ------------------------------------------------------------------ C04 oracles
 def gen_points(rng, n):
     for c in range(n):
@@ -570,7 +612,7 @@ def run_apply(inp):
     g = G(inp["seed"])
     kind, n, cx, mode = inp["kind"], inp["n"], inp["cx"], inp["mode"]
     X = mk(kind, g, inp["xshape"], n, cx, scale=0.3)
-    T = transformations(g, inp["tshape"], n, kind, cx)
+    T = transformations(g, inp["tshape"], n, kind, cx, mixed=0.3 if inp.get("mixed", True) else 0.0)
     xs, ts = tuple(X.shape), tuple(T.shape)
     bad = []
     if inp.get("prequery") and not cx:
@@ -595,6 +637,15 @@ def run_apply(inp):
     R = T.apply(X, broadcast=mode)
     if type(R) is not type(X):
         bad.append({"what": "type", "got": type(R).__name__, "expected": type(X).__name__})
+    # G17 / G13: the same transformation entered as column matrices, every broadcast mode; and the operator form of the default mode
+    Rc = type(T)(np.array(T.proj_data).swapaxes(-1, -2), column_vectors=True).apply(X, broadcast=mode)
+    if tuple(Rc.shape) != tuple(R.shape) or not data_proj_eq(kind, Rc.proj_data, R.proj_data, 1e-12) \
+            or (R.aux_data is not None and not aux_proj_eq(kind, Rc.aux_data, R.aux_data, 1e-9)):
+        bad.append({"what": "column_vectors_option", "mode": mode, "expected": "T(M^T, column_vectors=True).apply(X, mode) = T(M).apply(X, mode)"})
+    if mode == "elementwise":
+        Rm = T @ X
+        if tuple(Rm.shape) != tuple(R.shape) or not data_proj_eq(kind, Rm.proj_data, R.proj_data, 1e-12):
+            bad.append({"what": "operator_vs_apply", "expected": "T @ X = T.apply(X)"})
     if mode == "elementwise":
         exp = tuple(np.broadcast_shapes(xs, ts))
     elif mode == "pairwise":
@@ -632,7 +683,8 @@ def run_apply(inp):
 
 def gen_construct(rng, n):
     ops = ["segment", "polygon", "tangent", "pair", "circle_segment", "circle_geodesic", "circle_polygon", "horosphere",
-           "fixed_points", "sl2", "ideal_endpoints", "tangent_ops", "dtype_mix", "derived_then_original"]
+           "fixed_points", "sl2", "ideal_endpoints", "tangent_ops", "dtype_mix", "derived_then_original",
+           "mixed_isometries", "special_positions", "options", "far_points", "error_paths"]
     for c in range(n):
         op = ops[c % len(ops)]
         yield {"op": op, "shape": rng.choice(SHAPES), "n": 2 if op.startswith("circle") or op in ("sl2", "fixed_points") else rng.choice([2, 3]),
@@ -856,6 +908,163 @@ def run_construct(inp):
                     break
             if bad:
                 break
+    elif op == "mixed_isometries":
+        # G16: one composite with elliptic, ordinary, nearly parabolic and huge-multiplier members: member i answers as the single object does
+        X, mats = mixed_isometries(g, shape, 2)
+        calls = [("fixed_point_pair", lambda o: o.fixed_point_pair().proj_data), ("fixed_point", lambda o: o.fixed_point().proj_data),
+                 ("fixed_point(max_eigval=False)", lambda o: o.fixed_point(max_eigval=False).proj_data),
+                 ("fixed_point_pair(sort_eigvals=False)", lambda o: o.fixed_point_pair(sort_eigvals=False).proj_data),
+                 ("axis", lambda o: o.axis().proj_data), ("inv", lambda o: o.inv().matrix)]
+        for name, f in calls:
+            comp = _run_q(lambda: f(X))
+            units = [_run_q(lambda: f(H.Isometry(np.array(mats[r])))) for r in range(len(mats))]
+            if len(comp) == 2 and isinstance(comp[0], str):
+                # the composite refuses (e.g. a numerically singular member): legitimate exactly when some member refuses the same way on its own
+                if not any(_cmp_q(comp, u, "val", 0) for u in units if len(u) == 2 and isinstance(u[0], str)):
+                    bad.append({"what": "mixed_composite", "query": name, "composite_raises": comp[1], "expected": "no member raises on its own, so the composite must not raise"})
+                    break
+                continue
+            for r, idx in enumerate(np.ndindex(*shape)):
+                unit = units[r]
+                cu = (np.asarray(comp[0])[idx],)
+                how = "mat" if name == "inv" else "proj"
+                if not _cmp_q(cu, unit, how, 1e-6):
+                    bad.append({"what": "mixed_composite", "query": name, "idx": list(idx),
+                                "expected": "member i of the composite answer = the single-object answer for member i (members of different kinds / magnitudes)"})
+                    break
+            if bad:
+                break
+    elif op == "special_positions":
+        # G8: exact special positions among ordinary units: an endpoint / vertex exactly at the origin of the ball (first or second), stored with
+        # first coordinate 1; the stored ideal endpoints are checked against an independent reference (null, on the line), not against the library
+        cnt = int(np.prod(shape)) if len(shape) else 1
+        a = np.concatenate([np.ones(shape + (1,)), klein(g, shape, n)], axis=-1)
+        b = np.concatenate([np.ones(shape + (1,)), klein(g, shape, n) * -1.0], axis=-1)
+        fa, fb = a.reshape(-1, n + 1), b.reshape(-1, n + 1)
+        for r in range(cnt):
+            c = g.random()
+            if c < 0.35:
+                fb[r, 1:] = 0.0                # second endpoint at the origin
+            elif c < 0.6:
+                fa[r, 1:] = 0.0                # first endpoint at the origin
+        raw = np.stack([fa.reshape(a.shape), fb.reshape(b.shape)], axis=-2)
+        with np.errstate(all="ignore"):
+            S = H.Segment(raw.copy())
+            ref = ref_segment_ideal(raw)
+        if not aux_proj_eq("segment", S.aux_data, ref, 1e-7):
+            bad.append({"what": "segment_special_position", "expected": "ideal endpoints = the two null points on the line through the endpoints (endpoint at the origin included)"})
+        if not bad:
+            verts = np.concatenate([np.ones(shape + (4, 1)), klein(g, shape + (4,), n)], axis=-1)
+            verts[..., int(g.integers(0, 4)), 1:] = 0.0          # one vertex exactly at the origin
+            with np.errstate(all="ignore"):
+                Pg = H.Polygon(verts.copy())
+                E = Pg.get_edges()
+            edges = np.stack([verts, np.roll(verts, -1, axis=-2)], axis=-2)
+            if not aux_proj_eq("segment", E.aux_data, ref_segment_ideal(edges), 1e-7):
+                bad.append({"what": "polygon_edge_special_position", "expected": "ideal endpoints of every edge, a vertex at the origin included"})
+            if not bad and n == 2:
+                with np.errstate(all="ignore"):
+                    cp = E.circle_parameters(model="poincare")
+                for idx in np.ndindex(*(shape + (4,))):
+                    with np.errstate(all="ignore"):
+                        u = H.Segment(edges[idx].copy()).circle_parameters(model="poincare")
+                    if not _cmp_q(tuple(np.asarray(c_)[idx] for c_ in cp), u, "circle", 1e-6):
+                        bad.append({"what": "edge_circle_special_position", "idx": list(idx)})
+                        break
+    elif op == "options":
+        # G17 / G13: every option x option of the vectorised queries, enum members vs strings vs aliases, degrees vs radians, flatten=True vs reshaping
+        Pg = mk("polygon", g, shape, 2)
+        Sg = mk("segment", g, shape, 2)
+        for model, alias in ((H.Model.POINCARE, "poincare"), (H.Model.HALFSPACE, "halfplane"), (H.Model.HALFSPACE, "HALFSPACE")):
+            for degrees in (True, False):
+                for short_arc in (True, False):
+                    with np.errstate(all="ignore"):
+                        ref = Pg.get_edges().circle_parameters(degrees=degrees, model=model)                 # the edges, one by one, are the reference
+                        f0 = Pg.circle_parameters(short_arc=short_arc, degrees=degrees, model=alias, flatten=False)
+                        f1 = Pg.circle_parameters(short_arc=short_arc, degrees=degrees, model=alias, flatten=True)
+                    nE = int(np.prod(shape + (4,)))
+                    scale = 1.0 if degrees else 180.0 / np.pi
+                    r0 = (np.asarray(f0[0]), np.asarray(f0[1]), np.asarray(f0[2]) * scale)
+                    r1 = (np.asarray(f1[0]), np.asarray(f1[1]), np.asarray(f1[2]) * scale)
+                    rr = (np.asarray(ref[0]), np.asarray(ref[1]), np.asarray(ref[2]) * scale)
+                    flat = tuple(x.reshape((nE,) + x.shape[len(shape) + 1:]) for x in rr)
+                    if not _cmp_q(r0, rr, "circle", 1e-6):
+                        bad.append({"what": "polygon_circle_options", "flatten": False, "model": str(alias), "degrees": degrees, "short_arc": short_arc})
+                    elif tuple(np.asarray(r1[1]).shape) != (nE,) or not _cmp_q(r1, flat, "circle", 1e-6):
+                        bad.append({"what": "polygon_circle_options", "flatten": True, "model": str(alias), "degrees": degrees, "short_arc": short_arc,
+                                    "expected": "flatten=True = the flatten=False answer, edges listed in row-major order, same model"})
+                    if bad:
+                        break
+                if bad:
+                    break
+                with np.errstate(all="ignore"):
+                    sd = Sg.circle_parameters(degrees=True, model=model)
+                    sr = Sg.circle_parameters(degrees=False, model=alias)
+                if not _cmp_q((sd[0], sd[1], sd[2]), (sr[0], sr[1], np.asarray(sr[2]) * 180.0 / np.pi), "circle", 1e-6):
+                    bad.append({"what": "segment_circle_options", "model": str(alias)})
+            if bad:
+                break
+        if not bad:
+            Pt = mk("point", g, shape, n)
+            for member, names in ((H.Model.KLEIN, ("klein", "KLEIN", "affine", "kleinian")), (H.Model.HALFSPACE, ("halfspace", "halfplane")),
+                                  (H.Model.POINCARE, ("poincare", "Poincare")), (H.Model.HYPERBOLOID, ("hyperboloid",)), (H.Model.PROJECTIVE, ("projective",))):
+                base = np.array(fresh(Pt).coords(member))
+                for nm in names:
+                    if not same_val(np.array(fresh(Pt).coords(nm)), base, 1e-12):
+                        bad.append({"what": "model_alias", "name": nm})
+                c2 = np.array(H.get_point(np.array(fresh(Pt).coords(H.Model.KLEIN)), model="klein").coords(member))
+                if member is not H.Model.PROJECTIVE and member is not H.Model.HYPERBOLOID and not same_val(c2, base, 1e-9):
+                    bad.append({"what": "get_point_vs_Point", "model": str(member)})
+            A2 = g.normal(size=shape + (2, 2))
+            A2 = A2 / np.sqrt(np.abs(A2[..., 0, 0] * A2[..., 1, 1] - A2[..., 0, 1] * A2[..., 1, 0]))[..., None, None]
+            if not allclose(H.Isometry.from_sl2(A2.copy()).proj_data, H.sl2_iso(A2.copy()).proj_data, 1e-12):
+                bad.append({"what": "from_sl2_vs_sl2_iso"})
+    elif op == "far_points":
+        # G12: coordinates far from the origin (hyperbolic distance up to 12) and per-unit magnitudes 1e-9..1e9: composite = per unit
+        d = g.uniform(6.0, 12.0, shape)          # beyond ~13 the Minkowski norm of the float coordinates is no longer determined (conditioning, not a defect)
+        u = ideal(g, shape, n, exact=0.0)
+        hyp = np.concatenate([np.cosh(d)[..., None], np.sinh(d)[..., None] * u], axis=-1) * (10.0 ** g.integers(-9, 10, size=shape))[..., None]
+        Pt = H.Point(hyp.copy())
+        for m in MODELS:
+            with np.errstate(all="ignore"):
+                c = np.array(H.Point(hyp.copy()).coords(m))
+            for idx in np.ndindex(*shape):
+                with np.errstate(all="ignore"):
+                    uu = np.array(H.Point(hyp[idx].copy()).coords(m))
+                ok = rows_proj_eq(c[idx], uu, 1e-9) if m in ("projective", "hyperboloid") and np.all(np.isfinite(uu)) else same_val(c[idx], uu, 1e-9)
+                if not ok:
+                    bad.append({"what": "far_point_coords", "model": m, "idx": list(idx)})
+                    break
+        with np.errstate(all="ignore"):
+            dd = np.array(H.Point(hyp.copy()).distance(H.Point.get_origin(n, shape)))
+        if not same_val(dd, d, 1e-4):
+            bad.append({"what": "far_point_distance", "expected": "distance to the origin = the parameter the point was built from (1e-4)"})
+    elif op == "error_paths":
+        # G15: what must raise still raises (and the borderline valid input does not)
+        Pt = mk("point", g, shape if shape else (2,), n)
+        Tm = isometries(g, (3,), n)
+        X5 = mk("point", g, (2,), n)
+        def raises(f, *classes):
+            try:
+                f()
+            except classes:
+                return True
+            except Exception:
+                return False
+            return False
+        from geometry_tools.base import GeometryError
+        if not raises(lambda: Pt.coords("no-such-model"), GeometryError):
+            bad.append({"what": "invalid_model_name_does_not_raise_GeometryError"})
+        if not raises(lambda: Tm.apply(X5, "elementwise"), ValueError):
+            bad.append({"what": "elementwise_apply_of_non_broadcastable_shapes_does_not_raise"})
+        if not raises(lambda: Pt[len(Pt)], IndexError):
+            bad.append({"what": "index_out_of_range_does_not_raise"})
+        if not raises(lambda: len(unit_of(Pt, (0,) * len(Pt.shape))), TypeError):
+            bad.append({"what": "len_of_unit_does_not_raise"})
+        if not raises(lambda: H.Point(np.array([0.0] + [1.0] * n)).coords("klein"), GeometryError):
+            bad.append({"what": "point_outside_chart_does_not_raise"})
+        if raises(lambda: H.Point(np.array([1e-300] + [1.0] * n)).coords("klein"), Exception):
+            bad.append({"what": "borderline_valid_point_raises"})
     elif op == "sl2":
         A = g.normal(size=shape + (2, 2))
         det = A[..., 0, 0] * A[..., 1, 1] - A[..., 0, 1] * A[..., 1, 0]
